@@ -42,6 +42,14 @@ def _job(args):
             a, ref = arrays[n]
             kw = {'chunklen': row['c'], 'stepsize': _opt(row['s']), 'startindex': _opt(row['st']),
                   'endindex': _opt(row['en']), 'include_remainder': row['rem']}
+            # the integer arguments also come as NumPy integers of several widths (same values)
+            out['nform'] = out.get('nform', seed) + 1
+            t = [None, None, np.int64, None, np.uint8, None, np.int16, np.uint64, None, np.int8, np.intp, np.uint16][out['nform'] % 12]
+            if t is not None:
+                for key in ('chunklen', 'stepsize', 'startindex', 'endindex'):
+                    v = kw[key]
+                    if isinstance(v, int) and not isinstance(v, bool) and np.iinfo(t).min <= v <= np.iinfo(t).max:
+                        kw[key] = t(v)
             exp = 'ValueError' if row['res'] == [[-1, -1]] else [tuple(x) for x in row['res']]
             try:
                 got = [tuple(int(v) for v in x) for x in a.iterindices(**kw)]
@@ -52,8 +60,13 @@ def _job(args):
             out['ran'] += 1
             if exp == 'ValueError':
                 out['valueerrors'] += 1
+            npform = any(isinstance(v, np.integer) for v in kw.values())
+            if npform and isinstance(got, str) and got != exp:
+                # NumPy integers may be refused (any exception); if they are accepted the frames must be right
+                out['refused_numpy_int'] = out.get('refused_numpy_int', 0) + 1
+                continue
             if got != exp:
-                out['bad'].append({'call': 'iterindices', 'n': n, 'args': kw, 'expected': exp, 'got': got})
+                out['bad'].append({'call': 'iterindices', 'n': n, 'args': {k: repr(v) for k, v in kw.items()}, 'expected': exp, 'got': got})
                 continue
             # iterchunks: detached copies of a[frame] for the same frames
             try:
@@ -66,8 +79,11 @@ def _job(args):
                 gotc = type(e).__name__
                 chunks = None
             if exp == 'ValueError':
-                if gotc != 'ValueError':
+                if gotc != 'ValueError' and not (npform and chunks is None):
                     out['bad'].append({'call': 'iterchunks', 'n': n, 'args': kw, 'expected': exp, 'got': gotc})
+                continue
+            if npform and chunks is None:
+                out['refused_numpy_int'] = out.get('refused_numpy_int', 0) + 1
                 continue
             if chunks is None or len(chunks) != len(exp):
                 out['bad'].append({'call': 'iterchunks', 'n': n, 'args': kw, 'expected': '%d chunks' % len(exp),
